@@ -312,12 +312,15 @@ class C18(PropBase):
             dist["by_type"][variant] = len(cases) - n0
         # ---- MinidumpContext::read: which context type is chosen (`R <arch> <fill> <len>`; every 32-bit word of the buffer is
         #      the fill word, so the context_flags of whichever type the architecture selects is the word)
-        rd = TALL["$read"]
+        # (when the translator aborted, context_names.json is an older one: fall back to the architecture numbers / struct sizes below)
+        rd_archs = TALL.get("$read", {}).get("archs") or {str(a): a for a in self.DEFAULT_ARCHS}
         cpuf = sorted(set(next(iter(T.values()))["cpu_flags"].values()))
-        sizes = sorted({t["read_size"] for t in T.values() if "read_size" in t})
-        arch_nums = sorted(set(rd["archs"].values())) + [11, 13, 77, 0x7fff, 0x8000, 0x8005, 0xfffe]
-        own_of = {a: T[v]["cpu_flags"][T[v]["type"]] for v in T for a in T[v].get("read_archs", [])}
-        size_of = {a: T[v]["read_size"] for v in T for a in T[v].get("read_archs", [])}
+        rsize = {v: T[v].get("read_size", self.DEFAULT_SIZES.get(v, 716)) for v in T}
+        rarchs = {v: T[v].get("read_archs") or [a for a, x in self.ARCH_VARIANT.items() if x == v] for v in T}
+        sizes = sorted(set(rsize.values()))
+        arch_nums = sorted(set(rd_archs.values())) + [11, 13, 77, 0x7fff, 0x8000, 0x8005, 0xfffe]
+        own_of = {a: T[v]["cpu_flags"][T[v]["type"]] for v in T for a in rarchs[v]}
+        size_of = {a: rsize[v] for v in T for a in rarchs[v]}
         nr = 0
         for a in arch_nums:
             own = own_of.get(a, 0x10000)
@@ -354,6 +357,8 @@ class C18(PropBase):
     # of the translated arms
     ARCH_VARIANT = {0: "X86", 10: "X86", 9: "Amd64", 3: "Ppc", 0x8002: "Ppc64", 0x8001: "Sparc", 5: "Arm", 12: "Arm64",
                     0x8003: "OldArm64", 1: "Mips"}
+    DEFAULT_ARCHS = [0, 1, 2, 3, 4, 5, 6, 7, 8, 9, 10, 12, 0x8001, 0x8002, 0x8003, 0x8004, 0xffff]
+    DEFAULT_SIZES = {"X86": 716, "Amd64": 1232, "Ppc": 1004, "Ppc64": 1160, "Sparc": 584, "Arm": 368, "Arm64": 912, "OldArm64": 796, "Mips": 600}
 
     def _oracle_read(self, case, ans):
         _, arch, fill, ln = case.split(" ")
@@ -376,7 +381,10 @@ class C18(PropBase):
         if rdv != want:
             return "%s: produced a %s context; the architecture's context type is %s" % (who, rdv, want)
         t = T[rdv]
-        if (fill & 0xffffff00 & T["$read"]["allbits"]) != t["cpu_flags"][t["type"]]:
+        allbits = 0
+        for b in t["cpu_flags"].values():
+            allbits |= b
+        if (fill & 0xffffff00 & allbits) != t["cpu_flags"][t["type"]]:
             return "%s: accepted as %s although the CPU part of context_flags is not %s" % (who, rdv, t["type"])
         if d["va"] != "1":
             return "%s: a freshly read context does not have validity All" % who
